@@ -1,5 +1,6 @@
 # specs.files -- C20: contracts of playback/interception/files/* over a ghost file system.
 import ast
+import os
 import z3
 
 from pyvc.vals import Val, NONE, S, B, I, K, LAT, TYP, sub, SeqV, Str, BASE, fresh, truthy, num, is_num, St, Unsupported
@@ -8,7 +9,7 @@ from pyvc.repo import Repo
 from pyvc.run import Obl
 from pyvc import lib
 
-REPO_ROOT = '/repo'
+REPO_ROOT = os.environ.get('PYVC_REPO', '/repo')
 FI = 'playback.interception.files.file_interception:FileInterception.'
 B64 = z3.Function('b64encode', Str, Str); UNB64 = z3.Function('b64decode', Str, Str); ISB64 = z3.Function('is_b64_text', Str, z3.BoolSort())
 ASB = z3.ArraySort(Str, z3.BoolSort()); ASS = z3.ArraySort(Str, Str)
@@ -101,7 +102,7 @@ _eng.OBJMETHODS |= {('file', 'read'), ('file', 'write')}
 
 
 def setup(qual, cls_name, params):
-    repo = Repo(REPO_ROOT); spec = FileSpec(); ex = lib.install(Exec(repo, spec))
+    repo = Repo(); spec = FileSpec(); ex = lib.install(Exec(repo, spec))
     m, cls, node, info = repo.find(qual)
     st = St(); st.g['fs_dom'] = z3.Array('FSDOM', Str, z3.BoolSort()); st.g['fs_data'] = z3.Array('FSDATA', Str, Str)
     selfv = st.sym_obj('self', cls_name)
@@ -173,7 +174,7 @@ def intercept_file(props=None):
 def roundtrip(props=None):
     """_deserialize_file(_serialize_file(c, p)) = (p, c) for EVERY byte string c -- including c equal to the placeholder text -- and
     _deserialize_file(_above_limit_result(p)) = (p, placeholder)"""
-    repo = Repo(REPO_ROOT); spec = FileSpec(); ex = lib.install(Exec(repo, spec))
+    repo = Repo(); spec = FileSpec(); ex = lib.install(Exec(repo, spec))
     m, cls, ser, info1 = repo.find(FI + '_serialize_file'); _, _, des, info2 = repo.find(FI + '_deserialize_file'); _, _, abv, info3 = repo.find(FI + '_above_limit_result')
     st = St(); st.g['fs_dom'] = z3.Array('FSDOM', Str, z3.BoolSort()); st.g['fs_data'] = z3.Array('FSDATA', Str, Str)
     c = fresh('content', Str); p = fresh('path')
@@ -276,7 +277,7 @@ def size_limit(props=None):
 
 def holder_to_file(props=None):
     qual = 'playback.interception.files.output_file_interception:InterceptedOutputFileHolder.to_file'
-    repo = Repo(REPO_ROOT); spec = FileSpec(); ex = lib.install(Exec(repo, spec))
+    repo = Repo(); spec = FileSpec(); ex = lib.install(Exec(repo, spec))
     m, cls, node, info = repo.find(qual)
     st = St(); st.g['fs_dom'] = z3.Array('FSDOM', Str, z3.BoolSort()); st.g['fs_data'] = z3.Array('FSDATA', Str, Str)
     selfv = st.sym_obj('self', 'InterceptedOutputFileHolder'); c = fresh('c', Str); st.wr(selfv, 'file_content', Val.y(c))
